@@ -113,8 +113,13 @@ def make_truth(rng, shape=None, n=None):
         ent(b, lin={b: dec(), a: cf()})
         ent(c, lin={c: dec()})
     elif shape == "time_dependent":
-        ent(a, lin={a: dec()}, tterm=rng.choice(["t", "a*t", "sin(t)", "t/tau"]))
+        if rng.random() < 0.6:
+            ent(a, lin={a: dec()}, tterm=rng.choice(["t", "a*t", "sin(t)", "t/tau"]))      # time-dependent forcing
+        else:
+            ent(a, lin={a: rng.choice(["-t/tau", "-(1 + t)/tau", "-t", "-a*t"])})           # time-dependent coefficient
         ent(b, lin={b: dec()})
+        if rng.random() < 0.4:
+            ent(c, lin={c: dec(), a: cf()})                                                    # a linear reader of the non-autonomous variable
     elif shape == "higher_order_driven":
         # a linear shape of order 2 or 3 whose highest derivative is driven by a variable of ANOTHER shape that ends up not analytic
         # (nonlinear, or carrying an offset): the verdict has to travel down the shape's own derivative chain
@@ -350,7 +355,21 @@ def awkward_names(rng, g, p=0.25):
     return out
 
 
+TIME_NAMES = ["s", "time", "tt", "T"]
+
+
+def rename_time(ind, nm):
+    """the same system with the time variable renamed through the `input_time_symbol` option"""
+    import re
+    for d in ind["dynamics"]:
+        lhs, rhs = d["expression"].split("=")
+        d["expression"] = lhs + "=" + re.sub(r"(?<![A-Za-z0-9_])t(?![A-Za-z0-9_])", nm, rhs)
+    ind.setdefault("options", {})["input_time_symbol"] = nm
+
+
 def gen_system(rng, shape=None, style=None, **kw):
     T = make_truth(rng, shape)
     ind = to_indict(rng, T, style=style, **kw)
+    if T.shape == "time_dependent" and rng.random() < 0.45:
+        rename_time(ind, rng.choice(TIME_NAMES))
     return awkward_names(rng, {"indict": ind, "truth": T.to_json(), "shape": T.shape})
